@@ -612,6 +612,7 @@ type simLog struct {
 	asking bool
 	cmd    string // canonical tokens of the request array
 	result string // "exec" | "moved" | "ask" | "down" | "local"
+	seq    int    // order of arrival over the whole cluster
 }
 
 type simNode struct {
@@ -648,7 +649,8 @@ type simCluster struct {
 	nodesDelayMs int // CLUSTER NODES answers this late (the text is the layout at the time the command arrived)
 	// gossip lag (Model/Gossip.v): slot -> the finalisation of its migration has reached the old owner but not yet the
 	// new one, which - still "importing, not owner" in its own view - sends commands without ASKING back to the old owner
-	lag map[int]*simLag
+	lag    map[int]*simLag
+	logSeq int
 }
 
 type simLag struct {
@@ -887,7 +889,8 @@ func (nd *simNode) handle(v *wv, asking *bool, serial int) *wv {
 	defer cl.mu.Unlock()
 	wasAsking := *asking
 	*asking = false
-	entry := simLog{conn: serial, asking: wasAsking, cmd: v.String(), result: "local"}
+	cl.logSeq++
+	entry := simLog{conn: serial, asking: wasAsking, cmd: v.String(), result: "local", seq: cl.logSeq}
 	defer func() { nd.log = append(nd.log, entry) }()
 	if v.t != '*' || v.null || len(v.a) == 0 {
 		return wErr("ERR protocol error")
